@@ -63,7 +63,7 @@ def run(tier):
     rng = random.Random(vlib.seed())
     quick = tier == "quick"
     scen = []
-    nscen = 700 if quick else 6000
+    nscen = 700 if quick else 20000
     # exhaustive small: 1 column, all batches of <= 3 rows over 5-value alphabets (strings incl. NULL/missing)
     for alpha in (["a", "", "\x1f", None, MISSING], ["|", "a\x1fb", "\x00NULL", None, "b"], NUMS[:5]):
         for L in (2, 3):
@@ -86,7 +86,7 @@ def run(tier):
             tuples = tuples + [rng.choice(tuples) for _ in range(rng.choice([3, 5]))]
         scen.append(mk(cols, tuples, carrier, 2, None, rng))
     # scalar-function keys
-    for _ in range(120 if quick else 800):
+    for _ in range(120 if quick else 3000):
         ncol = rng.choice([1, 2, 3])
         cols = ["k%d" % (i + 1) for i in range(ncol)]
         fpos = rng.randrange(ncol)
